@@ -91,6 +91,7 @@ type endState struct {
 	bracket     int
 	werrHits    int
 	smallReads  int // cap every Read to this many bytes when > 0
+	idle        bool // the application of this side has stopped reading (drive.Endpoint.Pause): quiescent
 	holdWrites  bool // Write calls of this side block (before looking at the caller's bytes) until released
 	held        int  // Write calls currently blocked that way
 	maxReadSeen int
@@ -577,6 +578,18 @@ func (n *Net) SmallReads(s Side, k int) {
 	n.mu.Unlock()
 }
 
+// SetIdle marks side s as deliberately not reading (its application is paused
+// between two Read calls): it then counts as quiescent although data may be
+// deliverable.
+func (n *Net) SetIdle(s Side, on bool) {
+	n.mu.Lock()
+	if n.e[s].idle != on {
+		n.e[s].idle = on
+		n.qcond.Broadcast()
+	}
+	n.mu.Unlock()
+}
+
 // HoldWrites makes the Write calls of side s block before they look at the
 // caller's bytes (on = true) or lets the blocked and all later ones through
 // (on = false).  Models a send that is blocked on a full socket buffer while
@@ -728,6 +741,9 @@ func (n *Net) quiescent(sides []Side) bool {
 			continue
 		}
 		if e.parked && !n.deliverable(s) {
+			continue
+		}
+		if e.idle && !e.parked {
 			continue
 		}
 		return false
